@@ -67,8 +67,8 @@ func yieldStmt(label string, fset *token.FileSet, pos token.Pos, spin bool) ast.
 	}}
 }
 
-// lockCall classifies a statement: +1 for x.Lock(), -1 for x.Unlock(), 0
-// otherwise; deferred reports `defer x.Unlock()`.
+// lockCall classifies a statement: +1 for x.Lock()/x.RLock(), -1 for
+// x.Unlock()/x.RUnlock(), 0 otherwise; deferred reports `defer x.Unlock()`.
 func lockCall(st ast.Stmt) (delta int, deferred bool) {
 	var call *ast.CallExpr
 	switch s := st.(type) {
@@ -85,16 +85,20 @@ func lockCall(st ast.Stmt) (delta int, deferred bool) {
 	if !ok {
 		return 0, false
 	}
-	// Only exclusive locks count: a goroutine parked with a read lock held
-	// blocks writers only, and the one read lock that is held across scheduling
-	// points (Executor.dirty, for the whole of Run) is modelled by the scheduler.
+	// A read lock counts too (a goroutine parked with a read lock held would
+	// block a writer where the scheduler cannot see it, and the readers queued
+	// behind that writer), with one exception: Executor.dirty, which Run holds
+	// shared for its whole duration and which the scheduler models.
+	if x, ok := sel.X.(*ast.SelectorExpr); ok && x.Sel.Name == "dirty" && strings.HasPrefix(sel.Sel.Name, "R") {
+		return 0, false
+	}
 	switch sel.Sel.Name {
-	case "Lock":
+	case "Lock", "RLock":
 		if deferred {
 			return 0, false
 		}
 		return 1, false
-	case "Unlock":
+	case "Unlock", "RUnlock":
 		return -1, deferred
 	}
 	return 0, false
